@@ -158,4 +158,15 @@ theorem C12_fdae_grid_as_coded (t0 tend h uround slackAbs : ℚ) (hh : 0 < h) (h
   rw [hg]
   exact C12_fdae_grid t0 tend h uround (1 + slackAbs) hh (by linarith) hspan
 
+/-- **Grid of backward_euler / implicit_trapezoid, as coded now** (grid point `t0 + k·dt`): the statement of `C12_fixed_grid` holds
+for it — in exact arithmetic the two grids coincide (`fixedGridK_eq`); in floating point the new one carries no accumulated rounding,
+which is what keeps the step count below the buffer size at large |t0| (D58) -/
+theorem C12_fixed_grid_as_coded (t0 tend dt : ℚ) (hdt : 0 < dt) (hspan : t0 ≤ tend) :
+    ∃ n : ℕ, fixedGridK ratO t0 tend dt = .ok (t0 :: (List.range n).map (fun (k : ℕ) => t0 + ((k : ℚ) + 1) * dt))
+      ∧ (∀ k, k < n → dt / 10 < tend - (t0 + (k : ℚ) * dt))
+      ∧ tend - (t0 + (n : ℚ) * dt) ≤ dt / 10
+      ∧ (n : ℤ) ≤ ⌊(tend - t0) / dt⌋ + 1 := by
+  rw [fixedGridK_eq]
+  exact C12_fixed_grid t0 tend dt hdt hspan
+
 end Solverz
